@@ -183,10 +183,25 @@ pub struct GenProg {
     pub guard_cost_atoms: Vec<u32>,
 }
 
+/// integers at machine-word and representation boundaries: 0, +-1, +-2 and +-(2^k + d) for
+/// d in -1..=1. `hot`: only the word-size boundaries (k in 31, 32, 63, 64), so that two operands
+/// of one operator are likely to be a specific pair such as (-2^63, -1)
+pub fn boundary_int(rng: &mut Rng, hot: bool) -> Vec<u8> {
+    if rng.chance(1, if hot { 3 } else { 6 }) {
+        return int_bytes(*rng.pick(&[0i128, 1, -1, -1, 2, -2]));
+    }
+    let k: u32 = if hot { *rng.pick(&[31u32, 32, 63, 63, 64]) } else { *rng.pick(&[7u32, 8, 15, 16, 26, 31, 32, 63, 64, 100, 126]) };
+    let d = rng.below(3) as i128 - 1;
+    let v = (1i128 << k) + d;
+    int_bytes(if rng.bool() { v } else { -v })
+}
+
 struct PB<'r> {
     t: Sx,
     rng: &'r mut Rng,
     cfg: ProgCfg,
+    /// this program draws its integer constants from the word-size boundaries
+    hot_ints: bool,
     env_kinds: Vec<Kind>,
     guard_atoms: Vec<(u32, u32)>, // (atom idx, depth)
     guard_depth: u32,
@@ -238,8 +253,13 @@ impl PB<'_> {
     /// a constant value (not a program) of the given kind
     fn value(&mut self, kind: Kind) -> u32 {
         match kind {
+            Kind::Int if self.hot_ints && self.rng.chance(3, 4) => {
+                let b = boundary_int(self.rng, true);
+                self.atom(&b)
+            }
             Kind::Int => {
-                let b = match self.rng.below(12) {
+                let b = match self.rng.below(13) {
+                    12 => boundary_int(self.rng, false),
                     0..=4 => int_bytes(self.rng.below(300) as i128 - 20),
                     5 => int_bytes(*self.rng.pick(&[0x7fi128, 0x80, 0xff, 0x100, 0x7fff, 0x8000, 0x3ffffff, 0x4000000, 0x7fffffff, 0x80000000, u64::MAX as i128, -1, -128, -129])),
                     6 => {
@@ -1143,12 +1163,14 @@ pub fn gen_program(rng: &mut Rng, cfg: &ProgCfg) -> GenProg {
     let env_kinds: Vec<Kind> = (0..nenv)
         .map(|i| if i >= 6 { *rng.pick(&[Kind::Int, Kind::Int, Kind::Bool, Kind::Bytes]) } else { *rng.pick(&[Kind::Int, Kind::Int, Kind::Bytes, Kind::Bytes, Kind::Bool, Kind::List, Kind::G1, Kind::Bytes32]) })
         .collect();
+    let hot_ints = rng.chance(1, 6);
     let mut pb = PB {
         t: Sx {
             nodes: Vec::new(),
             root: 0,
         },
         rng,
+        hot_ints,
         cfg: cfg.clone(),
         env_kinds: env_kinds.clone(),
         guard_atoms: Vec::new(),
@@ -1167,7 +1189,7 @@ pub fn gen_program(rng: &mut Rng, cfg: &ProgCfg) -> GenProg {
         nodes: Vec::new(),
         root: 0,
     };
-    let kind = *pb.rng.pick(&[Kind::Int, Kind::Bytes, Kind::Bool, Kind::List, Kind::Any, Kind::Any]);
+    let kind = if hot_ints && pb.rng.chance(3, 4) { Kind::Int } else { *pb.rng.pick(&[Kind::Int, Kind::Bytes, Kind::Bool, Kind::List, Kind::Any, Kind::Any]) };
     let depth = pb.cfg.max_depth;
     let root = if pb.cfg.has(fam::GUARD) && pb.rng.chance(1, 3) {
         // expose guard results: (c G1 (c G2 X))
